@@ -2,1403 +2,13 @@
 
 package store
 
-// C18 harness (see /verif/DESIGN.md section 5, C18; spec/TMStore.tla).
-//
-// Runs histories of saves, block applications and prunes on the REAL store.BlockStore and
-// the REAL state store (through the real BlockExecutor.ApplyBlock) over a journalling
-// dbm.DB wrapper that records every single DB write (batches flattened in order).  For
-// every prefix k of the journal of every operation the disk image "first k writes" is
-// rebuilt in a fresh MemDB, both stores are reopened on it (NewBlockStore / NewStore) and
-// every loader is called for every height; what they return is PROJECTED to the abstract
-// record of TMStore!Proj and written as NDJSON.  TLC (spec/trace/TMStoreTrace.tla) decides
-// conformance and the C18 property on these observations; this file makes no judgements.
+// C18 harness, block store + state store (library: zz_verif_c18_lib.go).
 
 import (
-	"bytes"
-	"crypto/sha256"
-	"encoding/binary"
-	"encoding/hex"
-	"encoding/json"
-	"fmt"
-	"hash"
-	"math/rand"
 	"os"
-	"sort"
 	"strconv"
-	"strings"
 	"testing"
-	"time"
-
-	"github.com/gogo/protobuf/proto"
-	dbm "github.com/tendermint/tm-db"
-
-	abci "github.com/tendermint/tendermint/abci/types"
-	"github.com/tendermint/tendermint/crypto/ed25519"
-	"github.com/tendermint/tendermint/libs/log"
-	mmock "github.com/tendermint/tendermint/mempool/mock"
-	tmstate "github.com/tendermint/tendermint/proto/tendermint/state"
-	tmstore "github.com/tendermint/tendermint/proto/tendermint/store"
-	tmproto "github.com/tendermint/tendermint/proto/tendermint/types"
-	"github.com/tendermint/tendermint/proxy"
-	sm "github.com/tendermint/tendermint/state"
-	"github.com/tendermint/tendermint/types"
 )
-
-// ---------------------------------------------------------------------------------------
-// journalling DB
-
-type c18Entry struct {
-	db     string // "b" block store DB, "s" state store DB
-	del    bool
-	key    []byte
-	val    []byte
-	mb, mh int64 // BlockStore.Base()/Height() of the live store at the moment of the write
-}
-
-type c18Journal struct {
-	on      bool
-	entries []c18Entry
-	hook    func() (int64, int64)
-}
-
-func (j *c18Journal) rec(db string, del bool, key, val []byte) {
-	if !j.on {
-		return
-	}
-	e := c18Entry{db: db, del: del, key: append([]byte{}, key...), val: append([]byte{}, val...)}
-	if j.hook != nil {
-		e.mb, e.mh = j.hook()
-	}
-	j.entries = append(j.entries, e)
-}
-
-type c18DB struct {
-	dbm.DB
-	name string
-	j    *c18Journal
-}
-
-func (d *c18DB) Set(k, v []byte) error {
-	if err := d.DB.Set(k, v); err != nil {
-		return err
-	}
-	d.j.rec(d.name, false, k, v)
-	return nil
-}
-func (d *c18DB) SetSync(k, v []byte) error {
-	if err := d.DB.SetSync(k, v); err != nil {
-		return err
-	}
-	d.j.rec(d.name, false, k, v)
-	return nil
-}
-func (d *c18DB) Delete(k []byte) error {
-	if err := d.DB.Delete(k); err != nil {
-		return err
-	}
-	d.j.rec(d.name, true, k, nil)
-	return nil
-}
-func (d *c18DB) DeleteSync(k []byte) error {
-	if err := d.DB.DeleteSync(k); err != nil {
-		return err
-	}
-	d.j.rec(d.name, true, k, nil)
-	return nil
-}
-func (d *c18DB) NewBatch() dbm.Batch { return &c18Batch{d: d} }
-
-type c18BatchOp struct {
-	del  bool
-	k, v []byte
-}
-
-// a batch is NOT atomic here: Write applies (and journals) its operations one by one, in
-// the order they were added
-type c18Batch struct {
-	d      *c18DB
-	ops    []c18BatchOp
-	closed bool
-}
-
-func (b *c18Batch) Set(k, v []byte) error {
-	if b.closed {
-		return fmt.Errorf("batch has been written or closed")
-	}
-	b.ops = append(b.ops, c18BatchOp{false, append([]byte{}, k...), append([]byte{}, v...)})
-	return nil
-}
-func (b *c18Batch) Delete(k []byte) error {
-	if b.closed {
-		return fmt.Errorf("batch has been written or closed")
-	}
-	b.ops = append(b.ops, c18BatchOp{true, append([]byte{}, k...), nil})
-	return nil
-}
-func (b *c18Batch) Write() error {
-	if b.closed {
-		return fmt.Errorf("batch has been written or closed")
-	}
-	for _, o := range b.ops {
-		var err error
-		if o.del {
-			err = b.d.Delete(o.k)
-		} else {
-			err = b.d.Set(o.k, o.v)
-		}
-		if err != nil {
-			return err
-		}
-	}
-	b.ops = nil
-	b.closed = true
-	return nil
-}
-func (b *c18Batch) WriteSync() error { return b.Write() }
-func (b *c18Batch) Close() error     { b.closed = true; b.ops = nil; return nil }
-
-func c18Clone(src dbm.DB) *dbm.MemDB {
-	dst := dbm.NewMemDB()
-	it, err := src.Iterator(nil, nil)
-	if err != nil {
-		panic(err)
-	}
-	defer it.Close()
-	for ; it.Valid(); it.Next() {
-		if err := dst.Set(append([]byte{}, it.Key()...), append([]byte{}, it.Value()...)); err != nil {
-			panic(err)
-		}
-	}
-	return dst
-}
-
-func c18Digest(h hash.Hash, src dbm.DB) {
-	it, err := src.Iterator(nil, nil)
-	if err != nil {
-		panic(err)
-	}
-	defer it.Close()
-	var n [8]byte
-	for ; it.Valid(); it.Next() {
-		binary.BigEndian.PutUint64(n[:], uint64(len(it.Key())))
-		h.Write(n[:])
-		h.Write(it.Key())
-		binary.BigEndian.PutUint64(n[:], uint64(len(it.Value())))
-		h.Write(n[:])
-		h.Write(it.Value())
-	}
-}
-
-// ---------------------------------------------------------------------------------------
-// chain description (model heights; real height = model height + Offset)
-
-type c18Cfg struct {
-	Initial   int64   `json:"initial"`
-	Boot      int64   `json:"boot"`
-	MaxHeight int64   `json:"maxheight"`
-	TwoPart   []int64 `json:"twopart"`
-	ValChg    []int64 `json:"valchg"`
-	ParChg    []int64 `json:"parchg"`
-	Offset    int64   `json:"offset"`
-	NVals     int     `json:"nvals"`
-}
-
-func (c c18Cfg) key() string { b, _ := json.Marshal(c); return string(b) }
-
-func c18Has(s []int64, x int64) bool {
-	for _, y := range s {
-		if y == x {
-			return true
-		}
-	}
-	return false
-}
-
-// deterministic application: validator / param changes are a function of the height only,
-// so a block can be applied again after a crash
-type c18App struct {
-	abci.BaseApplication
-	cfg  c18Cfg
-	pubs []ed25519.PubKey
-}
-
-func (a *c18App) EndBlock(req abci.RequestEndBlock) abci.ResponseEndBlock {
-	h := req.Height - a.cfg.Offset
-	res := abci.ResponseEndBlock{}
-	vc := append([]int64{}, a.cfg.ValChg...)
-	sort.Slice(vc, func(i, j int) bool { return vc[i] < vc[j] })
-	for i, c := range vc {
-		if c == h {
-			who := i % len(a.pubs)
-			res.ValidatorUpdates = []abci.ValidatorUpdate{types.TM2PB.NewValidatorUpdate(a.pubs[who], int64(11+i))}
-		}
-	}
-	pc := append([]int64{}, a.cfg.ParChg...)
-	sort.Slice(pc, func(i, j int) bool { return pc[i] < pc[j] })
-	for i, c := range pc {
-		if c == h {
-			res.ConsensusParamUpdates = &abci.ConsensusParams{
-				Block: &abci.BlockParams{MaxBytes: 22020096 - int64(i+1)*4096, MaxGas: -1}}
-		}
-	}
-	return res
-}
-
-func (a *c18App) Commit() abci.ResponseCommit {
-	return abci.ResponseCommit{Data: []byte("c18-app-hash")}
-}
-
-type c18Chain struct {
-	cfg     c18Cfg
-	chainID string
-	genDoc  *types.GenesisDoc
-	privs   map[string]types.PrivValidator
-	pubs    []ed25519.PubKey
-	blocks  map[int64]*types.Block   // by REAL height
-	parts   map[int64]*types.PartSet // by REAL height
-	seen    map[int64]*types.Commit  // commit for the block of that REAL height
-	states  map[int64]sm.State       // state after the block of that REAL height; states[first-1] = genesis state
-	first   int64                    // real initial height
-	last    int64                    // real last height
-	// naming tables
-	blockID  map[string]int64 // hex(block hash) -> MODEL height
-	valsetID map[string]int   // hex(valset hash) -> id
-	paramsID map[string]int   // hex(sha256(params proto)) -> id
-	lo, hi   int64            // model height domain
-	vs, ps   []int            // truth per model height lo..hi
-}
-
-func c18ParamsKey(p tmproto.ConsensusParams) string {
-	bz, err := p.Marshal()
-	if err != nil {
-		panic(err)
-	}
-	s := sha256.Sum256(bz)
-	return hex.EncodeToString(s[:])
-}
-
-func (ch *c18Chain) newExecutor(ss sm.Store) (*sm.BlockExecutor, proxy.AppConns) {
-	app := &c18App{cfg: ch.cfg, pubs: ch.pubs}
-	pa := proxy.NewAppConns(proxy.NewLocalClientCreator(app))
-	pa.SetLogger(log.NewNopLogger())
-	if err := pa.Start(); err != nil {
-		panic(err)
-	}
-	return sm.NewBlockExecutor(ss, log.NewNopLogger(), pa.Consensus(), mmock.Mempool{}, sm.EmptyEvidencePool{}), pa
-}
-
-// state store used ONLY while generating the chain: keeps the validator sets in memory, so
-// that the chain (the ground truth) does not depend on the persistence code under test
-type c18GenStore struct {
-	vals map[int64]*types.ValidatorSet
-}
-
-func (g *c18GenStore) LoadFromDBOrGenesisFile(string) (sm.State, error) { return sm.State{}, nil }
-func (g *c18GenStore) LoadFromDBOrGenesisDoc(*types.GenesisDoc) (sm.State, error) {
-	return sm.State{}, nil
-}
-func (g *c18GenStore) Load() (sm.State, error) { return sm.State{}, nil }
-func (g *c18GenStore) LoadValidators(h int64) (*types.ValidatorSet, error) {
-	if v, ok := g.vals[h]; ok {
-		return v.Copy(), nil
-	}
-	return nil, sm.ErrNoValSetForHeight{Height: h}
-}
-func (g *c18GenStore) LoadABCIResponses(int64) (*tmstate.ABCIResponses, error) { return nil, nil }
-func (g *c18GenStore) LoadLastABCIResponse(int64) (*tmstate.ABCIResponses, error) {
-	return nil, nil
-}
-func (g *c18GenStore) LoadConsensusParams(int64) (tmproto.ConsensusParams, error) {
-	return tmproto.ConsensusParams{}, nil
-}
-func (g *c18GenStore) Save(st sm.State) error {
-	h := st.LastBlockHeight + 1
-	if h == 1 {
-		h = st.InitialHeight
-	}
-	g.vals[h], g.vals[h+1] = st.Validators.Copy(), st.NextValidators.Copy()
-	return nil
-}
-func (g *c18GenStore) SaveABCIResponses(int64, *tmstate.ABCIResponses) error { return nil }
-func (g *c18GenStore) Bootstrap(sm.State) error                              { return nil }
-func (g *c18GenStore) PruneStates(int64, int64) error                        { return nil }
-func (g *c18GenStore) Close() error                                          { return nil }
-
-func (ch *c18Chain) valsAt(real int64) *types.ValidatorSet {
-	// validator set in force at height real
-	if st, ok := ch.states[real-1]; ok {
-		return st.Validators
-	}
-	if st, ok := ch.states[real-2]; ok {
-		return st.NextValidators
-	}
-	return nil
-}
-
-func c18MakeChain(cfg c18Cfg) *c18Chain {
-	if cfg.NVals == 0 {
-		cfg.NVals = 3
-	}
-	ch := &c18Chain{cfg: cfg, chainID: "c18-chain", privs: map[string]types.PrivValidator{},
-		blocks: map[int64]*types.Block{}, parts: map[int64]*types.PartSet{}, seen: map[int64]*types.Commit{},
-		states: map[int64]sm.State{}, blockID: map[string]int64{}, valsetID: map[string]int{}, paramsID: map[string]int{}}
-	genVals := make([]types.GenesisValidator, cfg.NVals)
-	for i := 0; i < cfg.NVals; i++ {
-		pk := ed25519.GenPrivKeyFromSecret([]byte(fmt.Sprintf("c18-validator-%d", i)))
-		pv := types.NewMockPVWithParams(pk, false, false)
-		pub := pk.PubKey()
-		ch.privs[string(pub.Address())] = pv
-		ch.pubs = append(ch.pubs, pub.(ed25519.PubKey))
-		genVals[i] = types.GenesisValidator{Address: pub.Address(), PubKey: pub, Power: 10, Name: fmt.Sprintf("v%d", i)}
-	}
-	genTime := time.Date(2020, 1, 1, 0, 0, 0, 0, time.UTC)
-	ch.first = cfg.Initial + cfg.Offset
-	ch.last = cfg.MaxHeight + cfg.Offset
-	ch.genDoc = &types.GenesisDoc{GenesisTime: genTime, ChainID: ch.chainID, InitialHeight: ch.first,
-		ConsensusParams: types.DefaultConsensusParams(), Validators: genVals}
-	state, err := sm.MakeGenesisState(ch.genDoc)
-	if err != nil {
-		panic(err)
-	}
-	ss := &c18GenStore{vals: map[int64]*types.ValidatorSet{}}
-	if err := ss.Save(state); err != nil {
-		panic(err)
-	}
-	exec, pa := ch.newExecutor(ss)
-	defer pa.Stop() //nolint:errcheck
-	ch.states[ch.first-1] = state.Copy()
-	lastCommit := types.NewCommit(0, 0, types.BlockID{}, nil)
-	for h := ch.first; h <= ch.last; h++ {
-		mh := h - cfg.Offset
-		var txs []types.Tx
-		if c18Has(cfg.TwoPart, mh) {
-			big := make([]byte, 70000)
-			for i := range big {
-				big[i] = byte(int(h) + i*7)
-			}
-			txs = append(txs, types.Tx(big))
-		}
-		txs = append(txs, types.Tx(fmt.Sprintf("c18-tx-%d", h)))
-		block, parts := state.MakeBlock(h, txs, lastCommit, nil, state.Validators.GetProposer().Address)
-		blockID := types.BlockID{Hash: block.Hash(), PartSetHeader: parts.Header()}
-		vals := state.Validators // validator set in force at h
-		newState, _, err := exec.ApplyBlock(state, blockID, block)
-		if err != nil {
-			panic(fmt.Sprintf("chain generation: ApplyBlock(%d): %v", h, err))
-		}
-		// commit for block h by the validators of height h
-		vs := types.NewVoteSet(ch.chainID, h, 0, tmproto.PrecommitType, vals)
-		for idx, v := range vals.Validators {
-			vote := &types.Vote{ValidatorAddress: v.Address, ValidatorIndex: int32(idx), Height: h, Round: 0,
-				Type: tmproto.PrecommitType, BlockID: blockID, Timestamp: genTime.Add(time.Duration(h-ch.first+1) * time.Second)}
-			pv := vote.ToProto()
-			if err := ch.privs[string(v.Address)].SignVote(ch.chainID, pv); err != nil {
-				panic(err)
-			}
-			vote.Signature = pv.Signature
-			if ok, err := vs.AddVote(vote); !ok || err != nil {
-				panic(fmt.Sprintf("add vote: %v", err))
-			}
-		}
-		commit := vs.MakeCommit()
-		ch.blocks[h], ch.parts[h], ch.seen[h] = block, parts, commit
-		ch.states[h] = newState.Copy()
-		ch.blockID[hex.EncodeToString(block.Hash())] = mh
-		state = newState
-		lastCommit = commit
-	}
-	// truth tables over the model domain
-	ch.lo = cfg.Initial - 1
-	if cfg.Boot > 0 {
-		ch.lo = cfg.Boot - 1
-	}
-	ch.hi = cfg.MaxHeight + 2
-	for mh := ch.lo; mh <= ch.hi; mh++ {
-		real := mh + cfg.Offset
-		v := ch.valsAt(real)
-		if v == nil {
-			v = ch.valsAt(ch.first)
-		}
-		k := hex.EncodeToString(v.Hash())
-		if _, ok := ch.valsetID[k]; !ok {
-			ch.valsetID[k] = len(ch.valsetID)
-		}
-		ch.vs = append(ch.vs, ch.valsetID[k])
-		var p tmproto.ConsensusParams
-		if st, ok := ch.states[real-1]; ok {
-			p = st.ConsensusParams
-		} else if real-1 > ch.last {
-			p = ch.states[ch.last].ConsensusParams
-		} else {
-			p = ch.states[ch.first-1].ConsensusParams
-		}
-		pk := c18ParamsKey(p)
-		if _, ok := ch.paramsID[pk]; !ok {
-			ch.paramsID[pk] = len(ch.paramsID)
-		}
-		ch.ps = append(ch.ps, ch.paramsID[pk])
-	}
-	return ch
-}
-
-func (ch *c18Chain) model(real int64) int64 {
-	if real == 0 {
-		return 0
-	}
-	return real - ch.cfg.Offset
-}
-
-func (ch *c18Chain) blockIDOfHash(hash []byte) int64 {
-	if len(hash) == 0 {
-		return -3
-	}
-	if h, ok := ch.blockID[hex.EncodeToString(hash)]; ok {
-		return h
-	}
-	return -2
-}
-
-func (ch *c18Chain) resetEvent(run int, full bool, batch int64) map[string]interface{} {
-	nparts := []int{}
-	ckpt := []int64{}
-	for mh := ch.lo; mh <= ch.hi; mh++ {
-		n := 1
-		if p, ok := ch.parts[mh+ch.cfg.Offset]; ok {
-			n = int(p.Total())
-		}
-		nparts = append(nparts, n)
-		if real := mh + ch.cfg.Offset; real > 0 && real%100000 == 0 {
-			ckpt = append(ckpt, mh)
-		}
-	}
-	nn := func(x []int64) []int64 {
-		if x == nil {
-			return []int64{}
-		}
-		return x
-	}
-	hcfg := map[string]interface{}{"initial": ch.cfg.Initial, "boot": ch.cfg.Boot, "maxheight": ch.cfg.MaxHeight,
-		"twopart": nn(ch.cfg.TwoPart), "valchg": nn(ch.cfg.ValChg), "parchg": nn(ch.cfg.ParChg), "offset": ch.cfg.Offset,
-		"nvals": ch.cfg.NVals}
-	return map[string]interface{}{"ev": "Reset", "run": run, "hcfg": hcfg, "cfg": map[string]interface{}{
-		"lo": ch.lo, "hi": ch.hi, "initial": ch.cfg.Initial, "boot": ch.cfg.Boot, "batch": batch, "ckpt": ckpt,
-		"nparts": nparts, "vs": ch.vs, "ps": ch.ps, "chk": []string{"block", "state"}, "full": full,
-		"offset": ch.cfg.Offset}}
-}
-
-// ---------------------------------------------------------------------------------------
-// abstraction of journal entries
-
-type c18Write struct {
-	K   string `json:"k"`
-	H   int64  `json:"h"`
-	I   int64  `json:"i"`
-	A   int64  `json:"a"`
-	B   int64  `json:"b"`
-	Del bool   `json:"del"`
-	MB  int64  `json:"mb"`
-	MH  int64  `json:"mh"`
-}
-
-func c18Atoi(s string) (int64, bool) {
-	n, err := strconv.ParseInt(s, 10, 64)
-	return n, err == nil
-}
-
-// heights touched by the entry (model), used for incremental audits
-func (ch *c18Chain) abstractEntry(e c18Entry) c18Write {
-	w := c18Write{K: "other", A: -1, B: -1, Del: e.del, MB: ch.model(e.mb), MH: ch.model(e.mh)}
-	key := string(e.key)
-	if e.db == "b" {
-		switch {
-		case key == "blockStore":
-			w.K = "bss"
-			if !e.del {
-				var bss tmstore.BlockStoreState
-				if err := proto.Unmarshal(e.val, &bss); err == nil {
-					w.A, w.B = ch.model(bss.Base), ch.model(bss.Height)
-				}
-			}
-		case strings.HasPrefix(key, "H:"):
-			if h, ok := c18Atoi(key[2:]); ok {
-				w.K, w.H = "meta", ch.model(h)
-				if !e.del {
-					pb := new(tmproto.BlockMeta)
-					if err := proto.Unmarshal(e.val, pb); err == nil {
-						if bm, err := types.BlockMetaFromProto(pb); err == nil {
-							w.A, w.B = ch.blockIDOfHash(bm.BlockID.Hash), int64(bm.BlockID.PartSetHeader.Total)
-						}
-					}
-				}
-			}
-		case strings.HasPrefix(key, "P:"):
-			f := strings.Split(key[2:], ":")
-			if len(f) == 2 {
-				h, ok1 := c18Atoi(f[0])
-				i, ok2 := c18Atoi(f[1])
-				if ok1 && ok2 {
-					w.K, w.H, w.I = "part", ch.model(h), i
-					if !e.del {
-						w.A, w.B = -2, 0
-						pb := new(tmproto.Part)
-						if err := proto.Unmarshal(e.val, pb); err == nil {
-							if ps, ok := ch.parts[h]; ok && int(i) < int(ps.Total()) && bytes.Equal(ps.GetPart(int(i)).Bytes, pb.Bytes) {
-								w.A = ch.model(h)
-							}
-						}
-					}
-				}
-			}
-		case strings.HasPrefix(key, "C:"), strings.HasPrefix(key, "SC:"):
-			k, rest := "commit", key[2:]
-			if strings.HasPrefix(key, "SC:") {
-				k, rest = "seen", key[3:]
-			}
-			if h, ok := c18Atoi(rest); ok {
-				w.K, w.H = k, ch.model(h)
-				if h == 0 {
-					w.H = ch.cfg.Initial - 1 // C:0 only arises as first-1 with offset 0
-				}
-				if !e.del {
-					w.A, w.B = -2, 0
-					pb := new(tmproto.Commit)
-					if err := proto.Unmarshal(e.val, pb); err == nil {
-						if c, err := types.CommitFromProto(pb); err == nil {
-							w.A = ch.blockIDOfHash(c.BlockID.Hash)
-						}
-					}
-				}
-			}
-		case strings.HasPrefix(key, "BH:"):
-			if hash, err := hex.DecodeString(key[3:]); err == nil {
-				w.K, w.H = "hidx", ch.blockIDOfHash(hash)
-				if !e.del {
-					w.B = 0
-					if h, ok := c18Atoi(string(e.val)); ok {
-						w.A = ch.model(h)
-					}
-				}
-			}
-		}
-		return w
-	}
-	switch {
-	case key == "stateKey":
-		w.K = "state"
-		if !e.del {
-			w.B = 0
-			sp := new(tmstate.State)
-			if err := proto.Unmarshal(e.val, sp); err == nil {
-				w.A = ch.model(sp.LastBlockHeight)
-			}
-		}
-	case key == "lastABCIResponseKey":
-		w.K = "lastabci"
-		if !e.del {
-			w.B = 0
-			info := new(tmstate.ABCIResponsesInfo)
-			if err := info.Unmarshal(e.val); err == nil {
-				w.A = ch.model(info.Height)
-			}
-		}
-	case strings.HasPrefix(key, "validatorsKey:"):
-		if h, ok := c18Atoi(key[len("validatorsKey:"):]); ok {
-			w.K, w.H = "vals", ch.model(h)
-			if !e.del {
-				lhc, id := ch.decodeValsInfo(e.val)
-				w.A, w.B = lhc, id
-			}
-		}
-	case strings.HasPrefix(key, "consensusParamsKey:"):
-		if h, ok := c18Atoi(key[len("consensusParamsKey:"):]); ok {
-			w.K, w.H = "params", ch.model(h)
-			if !e.del {
-				lhc, id := ch.decodeParamsInfo(e.val)
-				w.A, w.B = lhc, id
-			}
-		}
-	case strings.HasPrefix(key, "abciResponsesKey:"):
-		if h, ok := c18Atoi(key[len("abciResponsesKey:"):]); ok {
-			w.K, w.H = "abci", ch.model(h)
-			if !e.del {
-				w.A, w.B = 1, 0
-			}
-		}
-	}
-	return w
-}
-
-// (lhc, id): id -1 = no validator set stored, -2 = a set the chain does not know
-func (ch *c18Chain) decodeValsInfo(bz []byte) (int64, int64) {
-	v := new(tmstate.ValidatorsInfo)
-	if err := v.Unmarshal(bz); err != nil {
-		return -2, -2
-	}
-	id := int64(-1)
-	if v.ValidatorSet != nil {
-		id = -2
-		if vs, err := types.ValidatorSetFromProto(v.ValidatorSet); err == nil {
-			if x, ok := ch.valsetID[hex.EncodeToString(vs.Hash())]; ok {
-				id = int64(x)
-			}
-		}
-	}
-	return ch.model(v.LastHeightChanged), id
-}
-
-func (ch *c18Chain) decodeParamsInfo(bz []byte) (int64, int64) {
-	p := new(tmstate.ConsensusParamsInfo)
-	if err := p.Unmarshal(bz); err != nil {
-		return -2, -2
-	}
-	id := int64(-1)
-	if !p.ConsensusParams.Equal(&tmproto.ConsensusParams{}) {
-		id = -2
-		if x, ok := ch.paramsID[c18ParamsKey(p.ConsensusParams)]; ok {
-			id = int64(x)
-		}
-	}
-	return ch.model(p.LastHeightChanged), id
-}
-
-// ---------------------------------------------------------------------------------------
-// audit = projection of what the real loaders return (TMStore!Proj)
-
-type c18Proj struct {
-	Meta   int64  `json:"meta"`
-	Total  int64  `json:"total"`
-	Parts  int64  `json:"parts"`
-	Block  string `json:"block"`
-	Hidx   int64  `json:"hidx"`
-	ByHash string `json:"byhash"`
-	Cblk   int64  `json:"cblk"`
-	Cver   bool   `json:"cver"`
-	Sblk   int64  `json:"sblk"`
-	Sver   bool   `json:"sver"`
-	Vlhc   int64  `json:"vlhc"`
-	Vfull  int64  `json:"vfull"`
-	Vload  int64  `json:"vload"`
-	Plhc   int64  `json:"plhc"`
-	Pfull  int64  `json:"pfull"`
-	Pload  int64  `json:"pload"`
-	Abci   bool   `json:"abci"`
-}
-
-type c18Range struct {
-	Lo int64   `json:"lo"`
-	Hi int64   `json:"hi"`
-	P  c18Proj `json:"p"`
-}
-
-func c18Rel(x, h int64) int64 {
-	if x < 0 {
-		return x - 1000000
-	}
-	return x - h
-}
-
-type c18Auditor struct {
-	ch       *c18Chain
-	verMemo  map[string]bool
-	loadMemo map[string]int64
-	cache    map[int64]*c18Proj // last projection by model height (incremental mode)
-	vtgt     map[int64]int64    // model height whose validators record LoadValidators(h) resolves through
-	ptgt     map[int64]int64    // same for LoadConsensusParams
-	prio     int                // number of LoadValidators results whose proposer priorities differ from the chain's (statistic)
-	panics   int
-}
-
-func c18NewAuditor(ch *c18Chain) *c18Auditor {
-	return &c18Auditor{ch: ch, verMemo: map[string]bool{}, loadMemo: map[string]int64{}, cache: map[int64]*c18Proj{},
-		vtgt: map[int64]int64{}, ptgt: map[int64]int64{}}
-}
-
-func (a *c18Auditor) safe(f func()) (panicked bool) {
-	defer func() {
-		if r := recover(); r != nil {
-			panicked = true
-			a.panics++
-		}
-	}()
-	f()
-	return false
-}
-
-func (a *c18Auditor) verify(real int64, bid types.BlockID, c *types.Commit, raw []byte) bool {
-	vals := a.ch.valsAt(real)
-	if vals == nil || c == nil {
-		return false
-	}
-	s := sha256.Sum256(raw)
-	key := fmt.Sprintf("%d|%x|%x|%d", real, s[:8], bid.Hash, bid.PartSetHeader.Total)
-	if v, ok := a.verMemo[key]; ok {
-		return v
-	}
-	ok := false
-	a.safe(func() { ok = vals.VerifyCommit(a.ch.chainID, bid, real, c) == nil })
-	a.verMemo[key] = ok
-	return ok
-}
-
-// block-store half of the projection of model height mh
-func (a *c18Auditor) blockHalf(bs *BlockStore, bdb dbm.DB, mh int64, p *c18Proj) {
-	ch := a.ch
-	real := mh + ch.cfg.Offset
-	*p = c18Proj{Meta: -1000001, Block: "nil", Hidx: -1000001, ByHash: "nil", Cblk: -1000001, Sblk: -1000001,
-		Vlhc: p.Vlhc, Vfull: p.Vfull, Vload: p.Vload, Plhc: p.Plhc, Pfull: p.Pfull, Pload: p.Pload, Abci: p.Abci}
-	if real <= 0 {
-		// only C:0 can exist here
-		if real == 0 {
-			var c *types.Commit
-			a.safe(func() { c = bs.LoadBlockCommit(0) })
-			if c != nil {
-				p.Cblk = c18Rel(ch.blockIDOfHash(c.BlockID.Hash), mh)
-			}
-		}
-		return
-	}
-	var meta *types.BlockMeta
-	if a.safe(func() { meta = bs.LoadBlockMeta(real) }) {
-		p.Block = "panic"
-	}
-	truth := ch.blocks[real]
-	var bid types.BlockID
-	haveBid := false
-	if meta != nil {
-		p.Meta = c18Rel(ch.blockIDOfHash(meta.BlockID.Hash), mh)
-		p.Total = int64(meta.BlockID.PartSetHeader.Total)
-		bid, haveBid = meta.BlockID, true
-	} else if truth != nil {
-		bid, haveBid = types.BlockID{Hash: truth.Hash(), PartSetHeader: ch.parts[real].Header()}, true
-	}
-	probe := int(p.Total)
-	if truth != nil && int(ch.parts[real].Total()) > probe {
-		probe = int(ch.parts[real].Total())
-	}
-	probe += 2
-	for i := 0; i < probe; i++ {
-		var part *types.Part
-		a.safe(func() { part = bs.LoadBlockPart(real, i) })
-		if part != nil {
-			p.Parts++
-		}
-	}
-	var blk *types.Block
-	if a.safe(func() { blk = bs.LoadBlock(real) }) {
-		p.Block = "panic"
-	} else if blk != nil {
-		if meta != nil && bytes.Equal(blk.Hash(), meta.BlockID.Hash) &&
-			blk.MakePartSet(types.BlockPartSizeBytes).HasHeader(meta.BlockID.PartSetHeader) {
-			p.Block = "ok"
-		} else {
-			p.Block = "bad"
-		}
-	}
-	if truth != nil {
-		raw, _ := bdb.Get(calcBlockHashKey(truth.Hash()))
-		if len(raw) > 0 {
-			if n, ok := c18Atoi(string(raw)); ok {
-				p.Hidx = c18Rel(ch.model(n), mh)
-			} else {
-				p.Hidx = -1000002
-			}
-		}
-		var bh *types.Block
-		if a.safe(func() { bh = bs.LoadBlockByHash(truth.Hash()) }) {
-			p.ByHash = "panic"
-		} else if bh != nil {
-			if bytes.Equal(bh.Hash(), truth.Hash()) {
-				p.ByHash = "ok"
-			} else {
-				p.ByHash = "bad"
-			}
-		}
-	}
-	var c *types.Commit
-	a.safe(func() { c = bs.LoadBlockCommit(real) })
-	if c != nil {
-		p.Cblk = c18Rel(ch.blockIDOfHash(c.BlockID.Hash), mh)
-		if haveBid {
-			raw, _ := bdb.Get(calcBlockCommitKey(real))
-			p.Cver = a.verify(real, bid, c, raw)
-		}
-	}
-	var sc *types.Commit
-	a.safe(func() { sc = bs.LoadSeenCommit(real) })
-	if sc != nil {
-		p.Sblk = c18Rel(ch.blockIDOfHash(sc.BlockID.Hash), mh)
-		if haveBid {
-			raw, _ := bdb.Get(calcSeenCommitKey(real))
-			p.Sver = a.verify(real, bid, sc, raw)
-		}
-	}
-}
-
-func c18ValsKey(h int64) []byte   { return []byte(fmt.Sprintf("validatorsKey:%v", h)) }
-func c18ParamsDBKey(h int64) []byte { return []byte(fmt.Sprintf("consensusParamsKey:%v", h)) }
-
-// state-store half of the projection
-func (a *c18Auditor) stateHalf(ss sm.Store, sdb dbm.DB, mh int64, p *c18Proj) {
-	ch := a.ch
-	real := mh + ch.cfg.Offset
-	p.Vlhc, p.Vfull, p.Vload, p.Plhc, p.Pfull, p.Pload, p.Abci = -1, -1, -1, -1, -1, -1, false
-	a.vtgt[mh], a.ptgt[mh] = mh, mh
-	if real <= 0 {
-		return
-	}
-	rawV, _ := sdb.Get(c18ValsKey(real))
-	memoKey := ""
-	if len(rawV) > 0 {
-		lhc, id := ch.decodeValsInfo(rawV)
-		p.Vlhc, p.Vfull = lhc, id
-		// LoadValidators(h) is a function of the record at h and of the record it points to
-		tgt := lhc + ch.cfg.Offset
-		if ck := real - real%100000; ck > tgt {
-			tgt = ck
-		}
-		if id == -1 {
-			a.vtgt[mh] = ch.model(tgt)
-		}
-		rawT, _ := sdb.Get(c18ValsKey(tgt))
-		memoKey = fmt.Sprintf("v|%d|%s|%s", real, rawV, rawT)
-	}
-	if v, ok := a.loadMemo[memoKey]; ok && memoKey != "" {
-		p.Vload = v
-	} else {
-		var vs *types.ValidatorSet
-		var err error
-		if a.safe(func() { vs, err = ss.LoadValidators(real) }) {
-			p.Vload = -5
-		} else if err == nil && vs != nil {
-			p.Vload = -2
-			if x, ok := ch.valsetID[hex.EncodeToString(vs.Hash())]; ok {
-				p.Vload = int64(x)
-			}
-			if tv := ch.valsAt(real); tv != nil && bytes.Equal(tv.Hash(), vs.Hash()) {
-				if tp, lp := tv.GetProposer(), vs.GetProposer(); tp != nil && lp != nil && !bytes.Equal(tp.Address, lp.Address) {
-					a.prio++
-				}
-			}
-		}
-		if memoKey != "" {
-			a.loadMemo[memoKey] = p.Vload
-		}
-	}
-	rawP, _ := sdb.Get(c18ParamsDBKey(real))
-	if len(rawP) > 0 {
-		lhc, id := ch.decodeParamsInfo(rawP)
-		p.Plhc, p.Pfull = lhc, id
-		if id == -1 {
-			a.ptgt[mh] = lhc
-		}
-	}
-	var cp tmproto.ConsensusParams
-	var err error
-	if a.safe(func() { cp, err = ss.LoadConsensusParams(real) }) {
-		p.Pload = -5
-	} else if err == nil {
-		if cp.Equal(&tmproto.ConsensusParams{}) {
-			p.Pload = -2
-		} else if x, ok := ch.paramsID[c18ParamsKey(cp)]; ok {
-			p.Pload = int64(x)
-		} else {
-			p.Pload = -4
-		}
-	}
-	a.safe(func() {
-		if _, err := ss.LoadABCIResponses(real); err == nil {
-			p.Abci = true
-		}
-	})
-}
-
-// audit of a disk image: reopen both stores, project every height.  dirtyB / dirtyS == nil:
-// recompute everything; otherwise (incremental mode, long chains) only the block-store half
-// of the heights in dirtyB and the state-store half of the heights in dirtyS and of the
-// heights that resolve through a height in dirtyS are recomputed, the rest is the cached
-// projection of the previous image (which differs by exactly the writes listed as dirty).
-func (a *c18Auditor) audit(bdb, sdb dbm.DB, dirtyB, dirtyS map[int64]bool) (base, height int64, ranges []c18Range) {
-	bs := NewBlockStore(bdb)
-	ss := sm.NewStore(sdb, sm.StoreOptions{})
-	base, height = a.ch.model(bs.Base()), a.ch.model(bs.Height())
-	for mh := a.ch.lo; mh <= a.ch.hi; mh++ {
-		p, ok := a.cache[mh]
-		if !ok {
-			p = &c18Proj{}
-			a.cache[mh] = p
-		}
-		if !ok || dirtyB == nil || dirtyB[mh] {
-			a.blockHalf(bs, bdb, mh, p)
-		}
-		if !ok || dirtyS == nil || dirtyS[mh] || dirtyS[a.vtgt[mh]] || dirtyS[a.ptgt[mh]] {
-			a.stateHalf(ss, sdb, mh, p)
-		}
-		if n := len(ranges); n > 0 && ranges[n-1].P == *p {
-			ranges[n-1].Hi = mh
-		} else {
-			ranges = append(ranges, c18Range{Lo: mh, Hi: mh, P: *p})
-		}
-	}
-	return
-}
-
-// ---------------------------------------------------------------------------------------
-// the node under test
-
-type c18Op struct {
-	Op    string `json:"op"`
-	A     int64  `json:"a"`
-	B     int64  `json:"b"`
-	Crash int    `json:"crash"` // -1: no crash; k >= 0: continue from the image "first k writes"; -2: random prefix
-	Audit string `json:"audit"` // "" / "all": every prefix; "none"; "sample": see SampleEvery
-}
-
-// a tree of histories: the operation, then every continuation (branches share the prefix)
-type c18Tree struct {
-	Op       c18Op      `json:"op"`
-	Children []*c18Tree `json:"children"`
-}
-
-type c18Run struct {
-	Cfg         c18Cfg     `json:"cfg"`
-	Ops         []c18Op    `json:"ops"`
-	Tree        []*c18Tree `json:"tree"` // alternative to Ops: forest of continuations from the empty node
-	Incremental bool    `json:"incremental"`
-	SampleEvery int     `json:"sample_every"`
-	Label       string  `json:"label"`
-}
-
-type c18Input struct {
-	Runs   []c18Run `json:"runs"`
-	Random int      `json:"random"`
-}
-
-type c18Node struct {
-	ch       *c18Chain
-	bdb, sdb *dbm.MemDB
-	j        *c18Journal
-	bs       *BlockStore
-	ss       sm.Store
-	exec     *sm.BlockExecutor
-	pa       proxy.AppConns
-	state    sm.State
-}
-
-func (n *c18Node) open(bdb, sdb *dbm.MemDB) {
-	if n.pa != nil {
-		n.pa.Stop() //nolint:errcheck
-	}
-	n.bdb, n.sdb = bdb, sdb
-	n.j = &c18Journal{}
-	n.bs = NewBlockStore(&c18DB{DB: bdb, name: "b", j: n.j})
-	n.ss = sm.NewStore(&c18DB{DB: sdb, name: "s", j: n.j}, sm.StoreOptions{})
-	bs := n.bs
-	n.j.hook = func() (int64, int64) { return bs.Base(), bs.Height() }
-	n.exec, n.pa = n.ch.newExecutor(n.ss)
-	st, err := n.ss.Load()
-	if err != nil || st.IsEmpty() {
-		st, _ = sm.MakeGenesisState(n.ch.genDoc)
-	}
-	n.state = st
-}
-
-// execute one operation on the real stores; returns result class and the arguments the
-// spec needs (b, c)
-func (n *c18Node) exec1(op c18Op) (res string, b, c int64) {
-	ch := n.ch
-	off := ch.cfg.Offset
-	res, b, c = "ok", op.B, 0
-	defer func() {
-		if r := recover(); r != nil {
-			res = "panic"
-		}
-	}()
-	switch op.Op {
-	case "Genesis":
-		st, _ := sm.MakeGenesisState(ch.genDoc)
-		n.state = st
-		b, c = ch.model(st.LastHeightValidatorsChanged), ch.model(st.LastHeightConsensusParamsChanged)
-		if err := n.ss.Save(st); err != nil {
-			res = "err"
-		}
-	case "Bootstrap":
-		st := ch.states[op.A+off].Copy()
-		// what statesync/stateprovider.go State() produces
-		st.LastHeightValidatorsChanged = op.A + off + 2
-		st.LastHeightConsensusParamsChanged = op.A + off + 1
-		b = ch.model(st.LastHeightConsensusParamsChanged)
-		if err := n.ss.Bootstrap(st); err != nil {
-			res = "err"
-			return
-		}
-		if err := n.bs.SaveSeenCommit(op.A+off, ch.seen[op.A+off]); err != nil {
-			res = "err"
-			return
-		}
-		n.state = st
-	case "SaveBlock":
-		h := op.A + off
-		n.bs.SaveBlock(ch.blocks[h], ch.parts[h], ch.seen[h])
-	case "ApplyBlock":
-		h := op.A + off
-		blk := ch.blocks[h]
-		// arguments of the Save the spec predicts, should ApplyBlock fail before it
-		b, c = ch.model(ch.states[h].LastHeightValidatorsChanged), ch.model(ch.states[h].LastHeightConsensusParamsChanged)
-		st, _, err := n.exec.ApplyBlock(n.state, types.BlockID{Hash: blk.Hash(), PartSetHeader: ch.parts[h].Header()}, blk)
-		if err != nil {
-			res = "err"
-			return
-		}
-		n.state = st
-		b, c = ch.model(st.LastHeightValidatorsChanged), ch.model(st.LastHeightConsensusParamsChanged)
-	case "PruneBlocks":
-		if _, err := n.bs.PruneBlocks(op.A + off); err != nil {
-			res = "err"
-		}
-	case "PruneStates":
-		if err := n.ss.PruneStates(op.A+off, op.B+off); err != nil {
-			res = "err"
-		}
-	default:
-		res = "unknown-op"
-	}
-	return
-}
-
-type c18Out struct {
-	f       *os.File
-	enc     *json.Encoder
-	lines   int
-	audits  int
-	deduped int
-	ops     int
-}
-
-func (o *c18Out) emit(v interface{}) {
-	if err := o.enc.Encode(v); err != nil {
-		panic(err)
-	}
-	o.lines++
-}
-
-func c18ApplyEntry(bdb, sdb *dbm.MemDB, e c18Entry) {
-	db := bdb
-	if e.db == "s" {
-		db = sdb
-	}
-	var err error
-	if e.del {
-		err = db.Delete(e.key)
-	} else {
-		err = db.Set(e.key, e.val)
-	}
-	if err != nil {
-		panic(err)
-	}
-}
-
-type c18Runner struct {
-	t      *testing.T
-	out    *c18Out
-	chains map[string]*c18Chain
-	seen   map[string]bool // (disk, op) pairs whose prefixes were already audited in this process
-	rng    *rand.Rand
-}
-
-// run one history.  next(n) yields the next operation given the real node (nil = end).
-// If r.Tree is set, the forest is walked depth-first instead: at a branching point the disks
-// are snapshotted (Push), each continuation is run, and the node is reopened on the snapshot
-// (Pop + Reopen) before the next one.
-func (rr *c18Runner) run(runNo int, r c18Run, next func(n *c18Node) *c18Op) {
-	out := rr.out
-	ch, ok := rr.chains[r.Cfg.key()]
-	if !ok {
-		ch = c18MakeChain(r.Cfg)
-		rr.chains[r.Cfg.key()] = ch
-	}
-	out.emit(ch.resetEvent(runNo, !r.Incremental, 1000))
-	n := &c18Node{ch: ch}
-	n.open(dbm.NewMemDB(), dbm.NewMemDB())
-	defer func() { n.pa.Stop() }() //nolint:errcheck
-	aud := c18NewAuditor(ch)
-	if r.Tree != nil {
-		var walk func(kids []*c18Tree)
-		walk = func(kids []*c18Tree) {
-			for _, k := range kids {
-				var sb, ss *dbm.MemDB
-				if len(kids) > 1 {
-					sb, ss = c18Clone(n.bdb), c18Clone(n.sdb)
-					out.emit(map[string]interface{}{"ev": "Push"})
-				}
-				rr.step(n, aud, r, k.Op)
-				walk(k.Children)
-				if len(kids) > 1 {
-					n.open(sb, ss)
-					out.emit(map[string]interface{}{"ev": "Pop"})
-					out.emit(map[string]interface{}{"ev": "Reopen", "k": -1, "mbase": ch.model(n.bs.Base()), "mheight": ch.model(n.bs.Height())})
-				}
-			}
-		}
-		walk(r.Tree)
-	} else {
-		for {
-			opp := next(n)
-			if opp == nil {
-				break
-			}
-			rr.step(n, aud, r, *opp)
-		}
-	}
-	if aud.prio > 0 || aud.panics > 0 {
-		rr.t.Logf("C18STAT prio_mismatch=%d loader_panics=%d", aud.prio, aud.panics)
-	}
-}
-
-// one operation on the node: execute, journal, audit every (sampled) prefix, maybe crash
-func (rr *c18Runner) step(n *c18Node, aud *c18Auditor, r c18Run, op c18Op) {
-	out := rr.out
-	ch := n.ch
-	{
-		out.ops++
-		if op.Op == "Reopen" {
-			// crash with no operation in progress
-			n.open(c18Clone(n.bdb), c18Clone(n.sdb))
-			out.emit(map[string]interface{}{"ev": "Reopen", "k": -1, "mbase": ch.model(n.bs.Base()), "mheight": ch.model(n.bs.Height())})
-			return
-		}
-		auditing := op.Audit != "none"
-		var preB, preS *dbm.MemDB
-		if auditing || op.Crash != -1 {
-			preB, preS = c18Clone(n.bdb), c18Clone(n.sdb)
-		}
-		key := ""
-		if auditing && !r.Incremental {
-			hsh := sha256.New()
-			hsh.Write([]byte(r.Cfg.key()))
-			c18Digest(hsh, n.bdb)
-			hsh.Write([]byte("|"))
-			c18Digest(hsh, n.sdb)
-			fmt.Fprintf(hsh, "|%s|%d|%d|%d|%d", op.Op, op.A, op.B, n.bs.Base(), n.bs.Height())
-			key = hex.EncodeToString(hsh.Sum(nil))
-			if rr.seen[key] {
-				auditing = false
-				out.deduped++
-			}
-		}
-		mem0b, mem0h := ch.model(n.bs.Base()), ch.model(n.bs.Height())
-		n.j.entries = nil
-		n.j.on = true
-		res, b, c := n.exec1(op)
-		n.j.on = false
-		entries := n.j.entries
-		journal := make([]c18Write, len(entries))
-		for i, e := range entries {
-			journal[i] = ch.abstractEntry(e)
-		}
-		crashAt := op.Crash
-		if crashAt == -2 {
-			crashAt = rr.rng.Intn(len(entries) + 1)
-		}
-		if crashAt > len(entries) {
-			crashAt = len(entries)
-		}
-		out.emit(map[string]interface{}{"ev": "Op", "op": op.Op, "a": op.A, "b": b, "c": c, "res": res,
-			"n": len(journal), "journal": journal, "mem0": map[string]int64{"base": mem0b, "height": mem0h},
-			"audited": auditing})
-		var crashB, crashS *dbm.MemDB
-		if crashAt == 0 {
-			crashB, crashS = c18Clone(preB), c18Clone(preS)
-		}
-		if auditing {
-			if key != "" {
-				rr.seen[key] = true
-			}
-			imgB, imgS := preB, preS
-			if r.Incremental {
-				// the cache must describe the image before the first write
-				aud.audit(imgB, imgS, nil, nil)
-			}
-			lastLogged := 0
-			dirtyB, dirtyS := map[int64]bool{}, map[int64]bool{}
-			for k := 1; k <= len(entries); k++ {
-				c18ApplyEntry(imgB, imgS, entries[k-1])
-				w := journal[k-1]
-				if entries[k-1].db == "b" {
-					dirtyB[w.H] = true
-				} else {
-					dirtyS[w.H] = true
-				}
-				if crashAt == k {
-					crashB, crashS = c18Clone(imgB), c18Clone(imgS)
-				}
-				logIt := true
-				if op.Audit == "sample" && r.SampleEvery > 1 {
-					// always around range-descriptor writes and at the end, otherwise every n-th prefix
-					near := false
-					for d := -3; d <= 3; d++ {
-						if x := k - 1 + d; x >= 0 && x < len(journal) && journal[x].K == "bss" {
-							near = true
-						}
-					}
-					logIt = near || k%r.SampleEvery == 0 || k == len(entries) || k == crashAt || k <= 3
-				}
-				if !logIt {
-					continue
-				}
-				var dbase, dheight int64
-				var ranges []c18Range
-				if r.Incremental {
-					dbase, dheight, ranges = aud.audit(imgB, imgS, dirtyB, dirtyS)
-				} else {
-					dbase, dheight, ranges = aud.audit(imgB, imgS, nil, nil)
-				}
-				ev := map[string]interface{}{"ev": "A", "k": k, "dbase": dbase, "dheight": dheight,
-					"mbase": w.MB, "mheight": w.MH, "ranges": ranges}
-				if r.Incremental {
-					win := map[int64]bool{}
-					for x := lastLogged; x < k; x++ {
-						for d := int64(-1); d <= 1; d++ {
-							win[journal[x].H+d] = true
-						}
-					}
-					for _, x := range []int64{dbase - 1, dbase, dbase + 1, dheight, dheight + 1, w.MB, w.MB - 1, ch.lo, ch.hi, (ch.lo + ch.hi) / 2} {
-						win[x] = true
-					}
-					wl := []int64{}
-					for x := range win {
-						if x >= ch.lo && x <= ch.hi {
-							wl = append(wl, x)
-						}
-					}
-					sort.Slice(wl, func(i, j int) bool { return wl[i] < wl[j] })
-					ev["win"] = wl
-				}
-				out.emit(ev)
-				out.audits++
-				lastLogged = k
-				dirtyB, dirtyS = map[int64]bool{}, map[int64]bool{}
-			}
-		} else if crashAt > 0 {
-			crashB, crashS = c18Clone(preB), c18Clone(preS)
-			for k := 1; k <= crashAt; k++ {
-				c18ApplyEntry(crashB, crashS, entries[k-1])
-			}
-		}
-		if crashAt >= 0 {
-			n.open(crashB, crashS)
-			out.emit(map[string]interface{}{"ev": "Reopen", "k": crashAt, "mbase": ch.model(n.bs.Base()), "mheight": ch.model(n.bs.Height())})
-		}
-	}
-}
-
-// ---------------------------------------------------------------------------------------
-// random histories, chosen from what the REAL stores contain
-
-func c18RandomCfg(rng *rand.Rand) c18Cfg {
-	cfg := c18Cfg{Initial: []int64{1, 1, 2, 5}[rng.Intn(4)], NVals: 2 + rng.Intn(3)}
-	nh := int64(4 + rng.Intn(5))
-	cfg.MaxHeight = cfg.Initial + nh - 1
-	if rng.Intn(4) == 0 {
-		// put a validator-set checkpoint (height % 100000 == 0) inside the window
-		cfg.Offset = 100000 - cfg.Initial - int64(1+rng.Intn(int(nh)-1))
-	}
-	pick := func(p int) []int64 {
-		out := []int64{}
-		for h := cfg.Initial; h <= cfg.MaxHeight; h++ {
-			if rng.Intn(p) == 0 {
-				out = append(out, h)
-			}
-		}
-		return out
-	}
-	cfg.ValChg, cfg.ParChg, cfg.TwoPart = pick(3), pick(3), pick(4)
-	if rng.Intn(5) == 0 && nh > 4 {
-		cfg.Boot = cfg.Initial + int64(rng.Intn(2))
-	}
-	return cfg
-}
-
-func c18RandomNext(rng *rand.Rand, cfg c18Cfg) func(n *c18Node) *c18Op {
-	steps := 0
-	pendingStates := [2]int64{0, 0} // PruneStates(from, to) owed after a completed PruneBlocks
-	crash := func() int {
-		if rng.Intn(4) == 0 {
-			return -2
-		}
-		return -1
-	}
-	return func(n *c18Node) *c18Op {
-		steps++
-		if steps > 80 {
-			return nil
-		}
-		ch := n.ch
-		base, height := ch.model(n.bs.Base()), ch.model(n.bs.Height())
-		if pendingStates[1] != 0 {
-			op := &c18Op{Op: "PruneStates", A: pendingStates[0], B: pendingStates[1], Crash: crash()}
-			pendingStates = [2]int64{0, 0}
-			if base == op.B { // the block store prune was not interrupted
-				return op
-			}
-		}
-		persisted, err := n.ss.Load()
-		if err != nil || persisted.IsEmpty() {
-			if cfg.Boot > 0 {
-				return &c18Op{Op: "Bootstrap", A: cfg.Boot, Crash: crash()}
-			}
-			return &c18Op{Op: "Genesis", Crash: crash()}
-		}
-		lbh := ch.model(persisted.LastBlockHeight)
-		next := lbh + 1
-		if lbh == 0 {
-			next = cfg.Initial
-		}
-		if height < next && next <= cfg.MaxHeight {
-			return &c18Op{Op: "SaveBlock", A: next, Crash: crash()}
-		}
-		if height == next {
-			return &c18Op{Op: "ApplyBlock", A: next, Crash: crash()}
-		}
-		// synced
-		if height >= cfg.MaxHeight && rng.Intn(3) == 0 {
-			return nil
-		}
-		if height > base && base > 0 && rng.Intn(2) == 0 {
-			to := base + 1 + int64(rng.Intn(int(height-base)))
-			pendingStates = [2]int64{base, to}
-			return &c18Op{Op: "PruneBlocks", A: to, Crash: crash()}
-		}
-		switch rng.Intn(5) {
-		case 0: // API calls that must be refused
-			return &c18Op{Op: "PruneBlocks", A: height + 1 + int64(rng.Intn(2)), Crash: -1}
-		case 1:
-			if base > 1 {
-				return &c18Op{Op: "PruneBlocks", A: base - 1, Crash: -1}
-			}
-		case 2: // prune to the current base: deletes nothing, rewrites the range descriptor
-			if base > 0 {
-				return &c18Op{Op: "PruneBlocks", A: base, Crash: crash()}
-			}
-		case 3:
-			if base > 0 {
-				return &c18Op{Op: "PruneStates", A: base, B: base, Crash: -1}
-			}
-		}
-		if height >= cfg.MaxHeight {
-			return nil
-		}
-		return &c18Op{Op: "Reopen"}
-	}
-}
-
-func c18BoolInt(b bool) int {
-	if b {
-		return 1
-	}
-	return 0
-}
-
-// ---------------------------------------------------------------------------------------
 
 func TestVerifC18(t *testing.T) {
 	inPath, outDir := os.Getenv("VERIF_IN"), os.Getenv("VERIF_OUT")
@@ -1406,37 +16,7 @@ func TestVerifC18(t *testing.T) {
 		t.Skip("VERIF_IN / VERIF_OUT not set")
 	}
 	seed, _ := strconv.ParseInt(os.Getenv("VERIF_SEED"), 10, 64)
-	raw, err := os.ReadFile(inPath)
-	if err != nil {
+	if err := C18Main(inPath, outDir+"/store.ndjson", seed, nil, t.Logf); err != nil {
 		t.Fatal(err)
 	}
-	var in c18Input
-	if err := json.Unmarshal(raw, &in); err != nil {
-		t.Fatal(err)
-	}
-	f, err := os.Create(outDir + "/store.ndjson")
-	if err != nil {
-		t.Fatal(err)
-	}
-	defer f.Close()
-	rr := &c18Runner{t: t, out: &c18Out{f: f, enc: json.NewEncoder(f)}, chains: map[string]*c18Chain{},
-		seen: map[string]bool{}, rng: rand.New(rand.NewSource(seed*7919 + 18))}
-	runNo := 0
-	for _, r := range in.Runs {
-		runNo++
-		ops, i := r.Ops, 0
-		rr.run(runNo, r, func(*c18Node) *c18Op {
-			if i >= len(ops) {
-				return nil
-			}
-			i++
-			return &ops[i-1]
-		})
-	}
-	for i := 0; i < in.Random; i++ {
-		runNo++
-		cfg := c18RandomCfg(rr.rng)
-		rr.run(runNo, c18Run{Cfg: cfg, Label: "random"}, c18RandomNext(rr.rng, cfg))
-	}
-	t.Logf("C18STAT runs=%d ops=%d lines=%d audits=%d deduped_ops=%d", runNo, rr.out.ops, rr.out.lines, rr.out.audits, rr.out.deduped)
 }
